@@ -231,6 +231,7 @@ def getHOp (j : Json) : Except String (HOp Rat) := do
   | "newList" => pure (.newList (← getList getRat (← field j "xs")))
   | "new" => pure (.new (← nat "l") (← rat "c"))
   | "setTable" => pure (.setTable (← nat "i") (← nat "l"))
+  | "setTableUnsized" => pure (.setTableUnsized (← nat "i"))
   | "setCycles" => pure (.setCycles (← nat "i") (← rat "c"))
   | "setItem" => pure (.setItem (← nat "l") (← getInt (← field j "k")) (← rat "v"))
   | "append" => pure (.append (← nat "l") (← rat "v"))
